@@ -495,9 +495,9 @@ func c02Explore(r *SeqRun, record []byte, push, allOrders bool) {
 }
 
 var (
-	c02Ver    = []string{"", `"jsonrpc":"2.0"`, `"jsonrpc":"1.0"`, `"jsonrpc":2`, `"jsonrpc":null`, `"jsonrpc":["2.0"]`}
-	c02ID     = []string{"", `"id":7`, `"id":-3`, `"id":0`, `"id":1.5`, `"id":1e3`, `"id":"s"`, `"id":""`, `"id":"1"`, `"id":null`, `"id":true`, `"id":[1]`, `"id":{}`}
-	c02Method = []string{"", `"method":"ok"`, `"method":"fail"`, `"method":""`, `"method":"nope"`, `"method":"rpc.serverInfo"`, `"method":"rpc.nope"`, `"method":5`, `"method":null`, `"method":["ok"]`}
+	c02Ver    = []string{"", `"jsonrpc":"2.0"`, `"jsonrpc":"1.0"`, `"jsonrpc":2`, `"jsonrpc":null`, `"jsonrpc":["2.0"]`, `"JSONRPC":"2.0"`}
+	c02ID     = []string{"", `"id":7`, `"id":-3`, `"id":0`, `"id":1.5`, `"id":1e3`, `"id":"s"`, `"id":""`, `"id":"1"`, `"id":null`, `"id":true`, `"id":[1]`, `"id":{}`, `"ID":7`, `"id":3,"Id":4`}
+	c02Method = []string{"", `"method":"ok"`, `"method":"fail"`, `"method":""`, `"method":"nope"`, `"method":"rpc.serverInfo"`, `"method":"rpc.nope"`, `"method":5`, `"method":null`, `"method":["ok"]`, `"Method":"ok"`, `"method":"ok","METHOD":"nope"`}
 	c02Params = []string{"", `"params":[]`, `"params":[1]`, `"params":{}`, `"params":{"a":1}`, `"params":null`, `"params":0`, `"params":"s"`, `"params":true`}
 	c02Extra  = []string{"", `"x":1`, `"result":1`, `"result":null`, `"error":{"code":1,"message":"m"}`, `"error":5`}
 )
